@@ -12,7 +12,7 @@
  A driver that dies, hangs (per-line CPU limit) or does not build against the tree ends in a VIOLATION, not in a
  machinery error, whenever the property's functions are at fault (vlib/tables.py).
 """
-import os, random
+import os, random, re, json
 from concurrent.futures import ThreadPoolExecutor
 from vlib import core, tables
 from vlib.core import MachineryError
@@ -30,7 +30,7 @@ FLAVOURS = {"asan": tables.Flavour("asan"),
             "O2u": tables.Flavour("O2u", flags=["-O2", "-funsigned-char"]),
             "clangO2": tables.Flavour("clangO2", cxx="clang++", flags=["-O2"]),
             "O0s": tables.Flavour("O0s", flags=["-O0", "-fsigned-char"])}
-SECONDARY_FAMILIES = ("rnd-enc", "hostile-dec", "long-enc", "long-dec", "exh3q-enc", "upstream-enc", "upstream-dec", "es3-small", "ds3-small", "shrunk", "pad-dec")
+SECONDARY_FAMILIES = ("rnd-enc", "hostile-dec", "long-enc", "long-dec", "exh3q-enc", "upstream-enc", "upstream-dec", "es3-small", "ds3-small", "shrunk", "pad-dec", "gen-R", "gen-X")
 SECONDARY_ONLY = ("exh3q-enc", "es3-small", "ds3-small")      # subsumed by the full sweeps in the default build
 # round 3: stratified decoder alphabet - the ends of the three alphabet ranges, '+', '/', '=', their neighbours in the code table
 # ('@' '[' '`' '{' ':' '*' ','), the URL-safe '-' '_', NUL, DEL, 0x80, 0xFF, white space, and two bytes that are alphabet
@@ -197,6 +197,51 @@ def scripts(ctx):
     return out
 
 
+# round 4: shape classes of Base64Gen.tla that TLC must have produced (a class that is never met is a machinery error)
+GEN_SHAPES = ("empty", "all-padding", "whole-groups", "length-not-multiple-of-4", "padding-in-the-middle", "canonical-padded",
+              "non-canonical-padding", "padding-then-other", "stops-at-blank", "stops-at-high")
+L2_CLASSES = ("empty", "all-padding", "ends-in-padding", "all-alphabet", "other")
+
+
+def gen_families(ctx, r):
+    """Script families from the cases TLC enumerated (Base64Gen.tla: one "@E@" line per state) -> {family: lines}; fills the notes
+    with the measured class counts."""
+    cases = [json.loads(json.loads(l)[3:]) for l in r["out"].splitlines() if l.startswith('"@E@')]
+    if len(cases) != r["distinct"]:
+        raise MachineryError("Base64Gen: %d cases written for %d states, see %s" % (len(cases), r["distinct"], r["outfile"]))
+    rs = [c for c in cases if c["op"] == "R"]
+    xs = [c for c in cases if c["op"] == "X"]
+    shapes, stops, xsh = {}, {}, {}
+    for c in rs:
+        shapes[c["cls"]] = shapes.get(c["cls"], 0) + 1
+        if c["stop"] <= c["len"]:
+            k = "%d/%d" % (c["stop"], c["len"])       # position of the first character outside the alphabet / length of the text
+            stops[k] = stops.get(k, 0) + 1
+    for c in xs:
+        k = "%d,%d" % tuple(c["cls"])
+        xsh[k] = xsh.get(k, 0) + 1
+    missing = [k for k in GEN_SHAPES if not shapes.get(k)] + ["X %d,%d" % (i, j) for i in range(3) for j in range(3) if not xsh.get("%d,%d" % (i, j))]
+    maxlen = max(c["len"] for c in rs)
+    missing += ["stop %d/%d" % (i, n) for n in range(1, maxlen + 1) for i in range(1, n + 1) if not stops.get("%d/%d" % (i, n))]
+    if missing:
+        raise MachineryError("Base64Gen.tla did not produce the classes %s, see %s" % (missing, r["outfile"]))
+    ctx.notes["gen_text_shapes"] = shapes
+    ctx.notes["gen_stop_position_by_length"] = stops
+    ctx.notes["gen_concat_shapes_lenmod3"] = xsh
+    rc = sorted((c["t"] for c in rs), key=lambda t: (len(t), t))
+    xc = sorted(([c["a"], c["b"]] for c in xs), key=lambda t: (len(t[0]) + len(t[1]), t))
+    return {"gen-R": pack("R", rc) + pack("R", rc, arg=1), "gen-X": pack("X", xc) + pack("X", xc, arg=1)}
+
+
+def l2_classes(ctx, r, what):
+    """the decoder-argument classes TLC counted in a Base64Impl run (lines <<"@CLASS@", class, n>>)"""
+    got = {m.group(1): int(m.group(2)) for m in re.finditer(r'<<"@CLASS@", "([a-z-]+)", (\d+)>>', r["out"])}
+    missing = [k for k in L2_CLASSES if not got.get(k)]
+    if missing:
+        raise MachineryError("Base64Impl (%s): no decoder argument of class %s in the universe, see %s" % (what, missing, r["outfile"]))
+    return got
+
+
 def build(ctx, flavour="asan"):
     """-> path of the driver built in that flavour, or None after a VIOLATION (the property's functions cannot be called)"""
     fl = FLAVOURS[flavour or "asan"]
@@ -205,6 +250,11 @@ def build(ctx, flavour="asan"):
 
 
 def describe(line):
+    if line["op"] == "R":
+        return "base64encode(base64decode(%s))%s" % (line["c"][0], " [argument strings with capacity > size]" if line.get("arg") else "")
+    if line["op"] == "X":
+        return "base64decode(base64encode(a) + base64encode(b)), base64encode(a + b) for a, b = %s%s" % (
+            line["c"][0], " [argument strings with capacity > size]" if line.get("arg") else "")
     if line["op"] in ("ES", "DS"):
         return "%s(%s with element %d running over 0..255)%s" % ("base64encode+decode" if line["op"] == "ES" else "base64decode", line["c"][0], line["pos"],
                                                                  " [argument strings with capacity > size]" if line.get("arg") else "")
@@ -229,24 +279,31 @@ def run(ctx):
     q = ctx.quick
     W = tables.tlc_workers()
     flavours = ["asan", "O2u", "clangO2"] + ([] if q else ["O0s"])
-    with ThreadPoolExecutor(4) as ex:      # the model-checking runs overlap with compiling the harness
+    with ThreadPoolExecutor(5) as ex:      # the model-checking runs overlap with compiling the harness
         f1 = ex.submit(core.tlc_model_check, ctx, "Base64MC", "Base64_mc.cfg" if q else "Base64_mc_thorough.cfg",
                        "L1 laws: two definitions agree, RFC 4648 vectors, round trip, shape", workers=W)
         f2 = ex.submit(core.tlc_model_check, ctx, "Base64Impl", "Base64Impl_mc.cfg" if q else "Base64Impl_mc_thorough.cfg",
                        "L2 accumulators (exact 32-bit int) compute Encode/DecodePrefix; index in table; terminates", coverage=not q, workers=W)
         f3 = ex.submit(core.tlc_model_check, ctx, "Base64Impl", "Base64Impl_mc_wrap.cfg" if q else "Base64Impl_mc_wrap_thorough.cfg",
-                       "L2 on inputs long enough for the int accumulator to wrap (to %d bytes / %d characters over 4 values)" % ((6, 8) if q else (8, 9)),
+                       "L2 on inputs long enough for the int accumulator to wrap (to %d bytes / %d characters over 4 values)" % ((5, 7) if q else (8, 9)),
                        workers=W)
+        f4 = ex.submit(core.tlc_model_check, ctx, "Base64Gen", "Base64Gen.cfg" if q else "Base64Gen_thorough.cfg",
+                       "L1 composed calls: TLC enumerates and classifies decoder texts (R) and pairs of byte strings (X), checks "
+                       "ReencodeLaws / ConcatLaws on each and writes it out as a script case", workers=W)
         drvs = {f: d for f, d in zip(flavours, ex.map(lambda f: build(ctx, f), flavours))}
         sc = scripts(ctx)
-        r, r2, r2w = f1.result(), f2.result(), f3.result()
+        r, r2, r2w, rg = f1.result(), f2.result(), f3.result(), f4.result()
     if any(d is None for d in drvs.values()):      # the functions cannot be called as the property states: reported by build()
         return core.finish(ctx, "exploration", rule="the conformance driver does not build against this tree; no case was run",
                            assumptions=[], exhaustive=False)
     # ---- 1. L1 laws
     if r["violated"]:
         raise MachineryError("Base64.tla violates its own laws (%s): oracle bug, see %s" % (r["violated"], r["outfile"]))
+    if rg["violated"]:
+        raise MachineryError("Base64.tla violates its laws of composed calls (%s): oracle bug, see %s" % (rg["violated"], rg["outfile"]))
+    sc.update(gen_families(ctx, rg))
     # ---- 2. L2 accumulator machine computes L1
+    ctx.notes["l2_decoder_argument_classes"] = {"boundary": l2_classes(ctx, r2, "boundary"), "wrap": l2_classes(ctx, r2w, "wrap")}
     for x in (r2, r2w):
         if x["violated"]:
             ctx.drift.append("Base64Impl.tla does not compute Base64.tla's functions (%s); see %s" % (x["violated"], x["outfile"]))
@@ -256,6 +313,9 @@ def run(ctx):
         # negative control: the pre-repair index expression T[std::size_t(char)] leaves the table
         r3 = core.tlc(ctx, "Base64Impl", "Base64Impl_signedchar.cfg", name="l2-signed-char-index", workers=W)
         ctx.notes["l2_signed_char_index_control"] = "IndexInTable violated as expected" if r3["violated"] else "NOT violated (control failed)"
+        # negative control for ReadsInInput: a pre-pass that walks backwards over trailing padding with no lower bound
+        r5 = core.tlc(ctx, "Base64Impl", "Base64Impl_strippad.cfg", name="l2-strip-padding-read-control", workers=W)
+        ctx.notes["l2_read_index_control"] = "ReadsInInput violated as expected" if r5["violated"] == "ReadsInInput" else "NOT violated (control failed)"
         # observation (not part of the property): by the letter of C++14 the unmasked int accumulator is shifted left while
         # negative / beyond unsigned int for inputs of >= 5 bytes (7 characters); g++ and clang++ define that as wrap-around
         r4 = core.tlc(ctx, "Base64Impl", "Base64Impl_shiftub.cfg", name="l2-shift-ub-observation", workers=W)
@@ -264,16 +324,27 @@ def run(ctx):
                                                 if r4["violated"] else "NoShiftUB holds")
 
     jobs = []
+    # quick tier: one TLC launch per table is the dominant cost, so the families of fewer than 100 script lines share two tables
+    # per build, and the secondary builds run all their families in two tables (small and TLC-enumerated families first)
+    small = [n for n, l in sc.items() if n not in SECONDARY_ONLY and len(l) < 100] if q else []
     for name, lines in sc.items():
-        if name in SECONDARY_ONLY:
+        if name in SECONDARY_ONLY or name in small:
             continue
         nsplit = (4 if name in ("es3", "ds3") else 2) if q else (64 if name == "es3" else 24 if name == "ds3" else 8 if len(lines) > 2000 else 4)
         for i, ch in enumerate(split(lines, nsplit)):
             jobs.append(tables.Job("%s-%d" % (name, i), drvs["asan"], ch, bld="asan"))
+    if small:
+        for i, ch in enumerate(split([l for n in small for l in sc[n]], 2)):
+            jobs.append(tables.Job("small-%d" % i, drvs["asan"], ch, bld="asan"))
     for f in flavours[1:]:
+        if q:
+            order = sorted(SECONDARY_FAMILIES, key=lambda n: len(sc[n]))
+            for i, ch in enumerate(split([l for n in order for l in sc[n]], 2)):
+                jobs.append(tables.Job("secondary-%s-%d" % (f, i), drvs[f], ch, bld=f))
+            continue
         for name in SECONDARY_FAMILIES:
-            lines = sc[name] if q or len(sc[name]) < 400 else sc[name][:len(sc[name]) // 4]
-            for i, ch in enumerate(split(lines, 1 if q else 2)):
+            lines = sc[name] if len(sc[name]) < 400 else sc[name][:len(sc[name]) // 4]
+            for i, ch in enumerate(split(lines, 2)):
                 jobs.append(tables.Job("%s-%s-%d" % (name, f, i), drvs[f], ch, bld=f))
     ncases = sum(len(l["c"]) * (256 if l["op"] in ("ES", "DS") else 1) for j in jobs for l in j.lines)
     ctx.log("C->S: %d cases (a sweep case counts as its 256 calls) in %d tables, builds %s" % (ncases, len(jobs), flavours))
@@ -292,7 +363,12 @@ def run(ctx):
              "around fixed characters; seeded random byte strings (length 0..64, some to 400) and hostile decode texts (alphabet "
              "run + padding / whitespace / NUL / bytes >= 0x80 / truncated groups); long inputs (400..20 000 bytes, every length residue, "
              "lengths around 512/1024/4096) for both functions; a slice of all of these with argument strings whose capacity exceeds their size "
-             "(slack poisoned under ASan); one case = one call (a sweep case = 256 calls) with its returned string compared by TLC with "
+             "(slack poisoned under ASan); round 4: every decoder text up to length 5 over a reduced alphabet and every pair of byte strings up to "
+             "length 3 over boundary bytes, ENUMERATED AND CLASSIFIED BY TLC (Base64Gen.tla; every shape class - empty, only padding, padding in the "
+             "middle, non-canonical padding, length not a multiple of 4, a character outside the alphabet at every position of every length - "
+             "is met), through the composed calls encode(decode(t)) and decode(encode(a) + encode(b)), encode(a + b), checked against L1 and the "
+             "closed forms of ReencodeLaws / ConcatLaws; L2 (advisory): every index at which the argument is read lies inside it and exactly the "
+             "consumed prefix is read, for every input of the L2 universe incl. the empty and all-padding texts; one case = one call (a sweep case = 256 calls) with its returned string compared by TLC with "
              "Base64.tla - for encoder cases by two routes (Encode, and L1's DecodePrefix applied to the recorded output plus length/padding "
              "laws); harness under ASan + -fsanitize=bounds (abort on any index outside the decode table); the random, hostile, "
              "long, capacity and small sweep families are repeated in the builds %s"
